@@ -38,11 +38,11 @@ func uninstall() {
 var loop = net.IPv4(127, 0, 0, 1)
 
 type c12Scenario struct {
-	Accepted   int  // conns accepted during setup
-	Unaccepted int  // conns left in the backlog
-	LClose     int  // listener.Close calls (0..2)
+	Accepted   int   // conns accepted during setup
+	Unaccepted int   // conns left in the backlog
+	LClose     int   // listener.Close calls (0..2)
 	CClose     []int // per accepted conn: Close calls (0..2)
-	Accept     int  // Accept tasks (0..2)
+	Accept     int   // Accept tasks (0..2)
 	Readers    []bool
 	SendNew    bool // a datagram from a new remote arrives during the controlled phase
 	SendOld    bool // a datagram from an accepted remote arrives during the controlled phase
@@ -89,6 +89,15 @@ func genC12(t *rapid.T) c12Scenario {
 		if sc.Accept == 0 {
 			sc.Accept = 1
 		}
+	}
+	if sc.Accepted > 0 && rapid.IntRange(0, 5).Draw(t, "sendIntoClose") == 0 {
+		// the remote of connection 0 sends while the one Close of that connection runs, and
+		// nothing else competes for the schedule: a successor created inside the window
+		// between "marked closed" and "taken out of the table" must stay reachable
+		sc.Accepted, sc.Unaccepted = 1, 0
+		sc.CClose, sc.Readers = []int{1}, sc.Readers[:1]
+		sc.SendOld, sc.SendNew, sc.Gate, sc.Accept = true, false, false, 1
+		sc.LClose = rapid.SampledFrom([]int{0, 0, 1}).Draw(t, "lcloseFew")
 	}
 	if rapid.IntRange(0, 3).Draw(t, "smallBacklog") == 0 {
 		sc.Backlog = rapid.IntRange(1, 2).Draw(t, "backlog")
